@@ -507,6 +507,25 @@ def run(ctx):
             else:
                 ctx.ok(R_ns, {"fn": p_.split("::")[-1], "counter": maj.split("::")[-1]})
 
+    # a search handle's cursor names the entry that was reported last; FindNext resumes behind it.  That only enumerates each match once
+    # if the entry handed to the caller *is* file_list[current_index] — in FindFirst as in FindNext
+    R_cur = ctx.rule("C19.reported-entry-is-the-one-under-the-cursor", "in every function that fills find data from a search handle, the entry passed to fill_find_data derives from `file_list[<handle>.current_index]`", floor=2)
+    for f_ in st.fn_list:
+        if not f_.hir or f_.kind == "Closure" or "::tests::" in f_.path:
+            continue
+        for c_ in hirq.walk(f_.hir["body"]):
+            if c_.get("k") != "call" or not (c_.get("fn") or "").endswith("fill_find_data") or len(c_.get("args") or []) < 2:
+                continue
+            ctx.saw_fn(f_)
+            a_ = c_["args"][1]
+            vals = [hirq.strip(a_)] + [hirq.strip(v_) for v_ in hirq.value_leaves(f_.hir["body"], a_) if v_ is not None]
+            under = any(x_.get("k") == "index" and "file_list" in hirq.render(x_["e"]) and "current_index" in hirq.render(x_["i"]) for v_ in vals for x_ in hirq.walk(v_))
+            if under:
+                ctx.ok(R_cur, {"fn": f_.path.split("::")[-1], "entry": "file_list[current_index]"})
+            else:
+                ctx.bad(R_cur, "%s|entry-not-under-cursor" % f_.path.split("::")[-1], "%s:%d" % (f_.file, c_.get("ln") or 0), "the entry reported (`%s`) is not taken at the handle's cursor" % hirq.render(vals[-1])[:60],
+                        "the cursor does not name the reported entry, so the next call resumes at the wrong place: a match is reported twice or skipped, and the C enumeration differs from the mask-filtered listing")
+
     # a panic inside an extern "C" function aborts the caller's process.  Slicing a str / String by a byte range panics when a bound is
     # not a character boundary, so inside the FFI crate a range index into text is allowed only with bounds that are boundaries by
     # construction (the result of find / rfind / char_indices, or the string's len()); truncation to a byte budget goes through bytes
